@@ -23,7 +23,7 @@ STATE_MEASURE = "distinct (n, set of revealed coalitions) at which the wrapper w
 REAL_VS_STUB = {"real": ["icg_gym_linear.ICG_Gym_Linear", "icg_gym.ICG_Gym", "bounds", "normalize"], "stub": [],
                 "seams": ["legacy global numpy RNG set from the tape before every step (tie-breaks)"]}
 ASSUMPTIONS = ["the inner environment's own outputs are judged by the C09 oracle in the same run"]
-PROBES = ["large_n_mode", "second_environment_same_process", "initial_knowledge_beyond_minimal", "size_exhausted_masked", "tie_break_among_3plus", "reset_mid_episode", "done_reached", "n6"]
+PROBES = ["whole_size_class_initially_known", "large_n_mode", "second_environment_same_process", "initial_knowledge_beyond_minimal", "size_exhausted_masked", "tie_break_among_3plus", "reset_mid_episode", "done_reached", "n6"]
 TIERS = {
     "quick": {"runs": 10000, "wall": 40, "batch": 8, "shrink_s": 40},
     "thorough": {"runs": 2000000, "wall": 900, "batch": 16, "shrink_s": 120},
@@ -133,7 +133,11 @@ def run(sim: Sim) -> None:
     for e_idx in range(n_envs):
         # environments of one process: same n, equally many initially known coalitions, possibly different ones
         extras = sim.shuffled(all_expl, "which-extras")[:n_extra]
-        if n_extra:
+        if n >= 4 and sim.flip(1, 6, "whole-size-class-known"):
+            k = 2 + sim.choose(n - 3, "known-size-class")  # every coalition of one size 2..n-2 is known from the start
+            extras = [e for e in all_expl if games.popcount(e) == k]
+            sim.probe("whole_size_class_initially_known")
+        if extras:
             sim.probe("initial_knowledge_beyond_minimal")
         if e_idx:
             sim.probe("second_environment_same_process")
